@@ -166,6 +166,10 @@ fn one_case(t: i32, i: usize, ctx: &Ctx, rep: &mut Report, dir: &str) {
     let written: Vec<D> = shapes.iter().map(|s| s.d()).collect();
     let want: Vec<D> = written.iter().map(|d| d.expected_after_roundtrip()).collect();
     let nontrivial = n >= 2 || written.iter().any(|d| d.parts.len() >= 2 || d.has_special());
+    let vertexless = written.iter().filter(|d| d.parts.len() >= 2 && d.parts.iter().any(|p| p.is_empty())).count();
+    if vertexless > 0 {
+        rep.count("shapes_with_a_vertexless_ring_or_patch", vertexless as u64);
+    }
     if nontrivial {
         rep.nontrivial(&written.iter().map(|d| d.class_key()).collect::<Vec<_>>().join("|"));
     }
@@ -433,6 +437,10 @@ pub fn run(ctx: &Ctx) -> Report {
         rep.guard("distinct reading routes exercised", routes_seen, if cfg!(miri) { 8 } else { 18 });
         let e = rep.evaluations;
         rep.guard("sequences evaluated", e, (TYPES.len() * n / shards) as u64);
+        if !cfg!(miri) {
+            let v = rep.counters.get("shapes_with_a_vertexless_ring_or_patch").copied().unwrap_or(0);
+            rep.guard("shapes with a vertex-less ring or patch", v, 20);
+        }
     }
     if !cfg!(miri) {
         let _ = std::fs::remove_dir_all(&dir);
